@@ -47,10 +47,12 @@ def spawn(prop_id, tier, base_seed, mode, count, nworkers, outdir, soft_deadline
         out = os.path.join(outdir, f"{mode}{group}-{offset}-{w}.jsonl")
         cmd = [PY, "-m", "ticcsim.worker", "--prop", prop_id, "--tier", tier,
                "--base-seed", str(base_seed), "--stripe", f"{w}/{nworkers}", "--count", str(count),
-               "--out", out, "--soft-deadline", str(soft_deadline), "--offset", str(offset)]
+               "--out", out, "--soft-deadline", str(soft_deadline), "--offset", str(offset),
+               "--case-cap", str(900 if tier == "quick" else 1800)]
         if seed_tag:
             cmd += ["--seed-tag", seed_tag]
         env = core.mode_env(mode, hashseed=hashseed, numba_threads=numba_threads)
+        env["TICCSIM_GROUP"] = group or mode
         log = open(out + ".log", "w")
         p = subprocess.Popen(cmd, env=env, cwd=core.VERIF_ROOT, stdout=log, stderr=subprocess.STDOUT)
         procs.append((p, out, log))
@@ -119,7 +121,7 @@ def run_check(prop_id, tier, base_seed=None):
     os.makedirs(os.path.join(OUT_ROOT, "evidence"), exist_ok=True)
     plan = prop.plan(tier)
     soft = plan.pop("_soft_deadline", 100 if tier == "quick" else 1500)
-    hard = plan.pop("_hard_deadline", soft + 240)
+    hard = plan.pop("_hard_deadline", soft + (1000 if tier == "quick" else 2000))
     procs = []
     total_workers = sum(min(NCPU, max(1, spec["workers"])) for spec in plan.values())
     for mode_key, spec in plan.items():
@@ -242,9 +244,12 @@ def run_check(prop_id, tier, base_seed=None):
           f"{len(sigs)} distinct non-trivial, {len(violations)} violation(s), "
           f"{len(known_hits)} known finding(s), {wall:.1f}s")
     shutil.rmtree(outdir, ignore_errors=True)
+    unfinished = sum(1 for r in records if r.get("unfinished"))
+    if unfinished:
+        print(f"UNFINISHED {unfinished} case(s) hit the per-case wall cap (reported in the evidence under skipped)")
     if violations:
         return 1
-    if harness:
+    if harness or unfinished > max(1, n_eval // 10):
         return 2
     return 0
 
